@@ -372,6 +372,8 @@ class Merge(Expr):
                     right_index,
                     self.suffixes,
                     self.indicator,
+                    None,
+                    self.broadcast_side,
                 )
 
         shuffle_npartitions = self.operand("_npartitions") or max(
@@ -703,6 +705,7 @@ class BroadcastJoin(Merge, PartitionsFiltered):
         "suffixes",
         "indicator",
         "_partitions",
+        "_broadcast_side",
     ]
     _defaults = {
         "how": "inner",
@@ -713,9 +716,19 @@ class BroadcastJoin(Merge, PartitionsFiltered):
         "suffixes": ("_x", "_y"),
         "indicator": False,
         "_partitions": None,
+        "_broadcast_side": None,
     }
 
     is_broadcast_join = True
+
+    @functools.cached_property
+    def broadcast_side(self):
+        # The side chosen when the join was planned: the operands may have been
+        # repartitioned since (``npartitions=``), which must not flip the choice
+        side = self.operand("_broadcast_side")
+        if side is not None:
+            return side
+        return "left" if self.left.npartitions < self.right.npartitions else "right"
 
     def _divisions(self):
         if self.broadcast_side == "left":
